@@ -2,7 +2,7 @@
    Property theorems only; proofs live in Proofs/AggHistoryProofs.v. *)
 From Coq Require Import ZArith List Bool String Permutation.
 From Verif Require Import Base.Harness Model.OracleRound Model.OracleRoundCheck Model.AggHistory
-  Proofs.OracleRoundProofs Proofs.OracleRoundInv Proofs.AggHistoryProofs.
+  Proofs.OracleRoundProofs Proofs.OracleRoundInv Proofs.OracleRoundDistinct Proofs.AggHistoryProofs.
 Import ListNotations.
 Open Scope Z_scope.
 
@@ -20,6 +20,17 @@ Theorem C08_history_append_only_time_ordered qinfos ops s T :
   oinv (hrun qinfos s ops) /\ chrono (hrun qinfos s ops) (last_time ops T) /\ hist_rel ops s (hrun qinfos s ops).
 Proof. exact (hrun_correct qinfos ops s T). Qed.
 Print Assumptions C08_history_append_only_time_ordered.
+
+(* the same for every well-scheduled history (block structure, block time strictly increasing, report
+   windows of at least one block, no end blocker failing): the side conditions of the theorem above
+   (good_run) follow from the round invariant of C07 *)
+Theorem C08_history_well_scheduled qinfos ops s H T :
+  oinv s -> kinv s H -> chrono s T -> hsched H T ops -> hrun_ok qinfos s ops ->
+  oinv (hrun qinfos s ops) /\ chrono (hrun qinfos s ops) (last_time ops T) /\ hist_rel ops s (hrun qinfos s ops).
+Proof.
+  intros Hi K Hc Hs Hok. apply hrun_correct; [exact Hi | exact Hc |]. exact (hsched_good_run qinfos ops s H T K Hs Hok).
+Qed.
+Print Assumptions C08_history_well_scheduled.
 
 (* timestamps strictly increase along the chronological list of a query *)
 Theorem C08_timestamps_strictly_increase q l : aggs_sorted l -> key_sorted _ ag_ts (hist q l).
